@@ -565,9 +565,11 @@ func replayC10(raw []byte, st *Stats, wk *worker) {
 	ctx := context.Background()
 	img := &v.Image
 	bi, _ := wk.cache["c10.builtin"].(*c10Builtin)
-	if bi == nil {
-		st.Mismatch(Mismatch{What: "infra: no SCHEMA line (built-in images) before the first C10 vector"})
-		return
+	if bi == nil || len(bi.Builtin) == 0 {
+		// `bin/check C10 --replay <file>` re-runs one stored vector without MC_C10's SCHEMA line:
+		// the built-in types are then compared by name only
+		bi = &c10Builtin{byName: map[string]typeImage{}}
+		st.Note("no SCHEMA line of MC_C10: descriptions of built-in types and introspection __typename positions not compared")
 	}
 	timg := map[string]typeImage{}
 	for _, t := range img.Types {
@@ -578,10 +580,12 @@ func replayC10(raw []byte, st *Stats, wk *worker) {
 			timg[n] = t
 		}
 	}
-	for _, n := range img.Names {
-		if _, ok := timg[n]; !ok {
-			st.Mismatch(Mismatch{What: "infra: image lists type " + n + " without a description"})
-			return
+	if len(bi.Builtin) > 0 {
+		for _, n := range img.Names {
+			if _, ok := timg[n]; !ok {
+				st.Mismatch(Mismatch{What: "infra: image lists type " + n + " without a description"})
+				return
+			}
 		}
 	}
 
@@ -633,6 +637,9 @@ func replayC10(raw []byte, st *Stats, wk *worker) {
 	// configuration) all in the base configuration, otherwise two representatives
 	names := []string{}
 	for _, n := range img.Names {
+		if _, described := timg[n]; !described {
+			continue
+		}
 		if _, builtin := bi.byName[n]; !builtin || len(v.Eds) == 0 || n == "__Type" || n == "String" {
 			names = append(names, n)
 		}
@@ -700,9 +707,11 @@ func replayC10(raw []byte, st *Stats, wk *worker) {
 	for _, e := range bi.Typenames {
 		table[e.On+"."+e.F] = e.Exp
 	}
-	if data := c.do(s, c10Typenames, ctx); data != nil {
-		c.walkTypenames(data["__schema"], table[".__schema"], table, "__schema")
-		c.walkTypenames(data["__type"], table[".__type"], table, "__type")
+	if len(table) > 0 {
+		if data := c.do(s, c10Typenames, ctx); data != nil {
+			c.walkTypenames(data["__schema"], table[".__schema"], table, "__schema")
+			c.walkTypenames(data["__type"], table[".__type"], table, "__type")
+		}
 	}
 	for _, e := range img.Typenames {
 		switch {
